@@ -326,7 +326,8 @@ def handle : List String → String
       s!"msgs {ms.length}" ++ String.join (ms.map (fun m => " " ++ showMsgT m))
     | _, _ => "bad-op"
   | "streamseg" :: t :: toks =>
-    match t.toInt?, parseHexes (toks.map (fun k => (k.drop 2).toString)) with
+    -- `o:` tokens carry the intact form of a corrupted frame for the harness; not part of the stream
+    match t.toInt?, parseHexes ((toks.filter (fun k => !k.startsWith "o:")).map (fun k => (k.drop 2).toString)) with
     | some T, some bs =>
       let ms := segmentT crc24q (newState T) (In.ofBytes bs.flatten)
       s!"msgs {ms.length}" ++ String.join (ms.map (fun m => " " ++ showMsgT m))
